@@ -84,4 +84,9 @@ def keysOf (k : α → κ) : List α → List κ
 def papply (agg : List α → ρ) (k : α → κ) (evs : List α) : List (κ × ρ) :=
   (keysOf k evs).map (fun key => (key, agg (evs.filter (fun e => k e = key))))
 
+/-- engine glue behind a partitioned window (`execute_op`): every completed window is appended to one batch
+(`window_results.extend(completed)`), which `RuntimeOp::PartitionedAggregate` regroups by key -/
+def aggregateStage {ρ : Type} (agg : List Ev → ρ) (out : List (String × List Ev)) : List (String × ρ) :=
+  papply agg Ev.partKey (out.flatMap (·.2))
+
 end Varpulis.Window
